@@ -15,7 +15,7 @@ from common import cbool, clist, cnat
 THEORY = "C01"
 ALLOWED = {  # kind -> allowed result classes (without fault) ; delivery_error always allowed under a fault
     "ok": "value", "exc": "exception", "baseexc": "exception", "badres": "delivery_error", "badarg": "delivery_error",
-    "slow_to": "timeout", "islocked": "value", "getname": "value", "getsignals": "value", "badload_arg": "delivery_error", "badload_res": "delivery_error"}
+    "slow_to": "timeout", "islocked": "value", "getname": "value", "getsignals": "value", "selfcall": "value", "selfnested": "timeout", "badload_arg": "delivery_error", "badload_res": "delivery_error"}
 
 
 def to_labels(obs, spec):
@@ -35,7 +35,7 @@ def to_labels(obs, spec):
             c = obs["calls"][tag]
             cid = callers.setdefault(c["caller"], len(callers))
             kind = c["kind"]
-            body = {"getname": "OValue %d" % rid, "getsignals": "OValue %d" % rid, "badload_arg": "OValue %d" % rid, "badload_res": "OValue %d" % rid, "ok": "OValue %d" % rid, "badres": "OValue %d" % rid, "badarg": "OValue %d" % rid, "slow_to": "OValue %d" % rid, "islocked": "OValue %d" % rid,
+            body = {"selfcall": "OValue %d" % rid, "selfnested": "OValue %d" % rid, "getname": "OValue %d" % rid, "getsignals": "OValue %d" % rid, "badload_arg": "OValue %d" % rid, "badload_res": "OValue %d" % rid, "ok": "OValue %d" % rid, "badres": "OValue %d" % rid, "badarg": "OValue %d" % rid, "slow_to": "OValue %d" % rid, "islocked": "OValue %d" % rid,
                     "exc": "OExc %d" % rid, "baseexc": "OExc %d" % rid}[kind]
             info.append("mkInfo %s %s %s %s (%s)" % (cbool(c["remote"]), cnat(cid), cbool(kind != "badarg"),
                                                      cbool(kind != "badres"), body))
@@ -154,6 +154,8 @@ def oracle(spec, res):
         want = ALLOWED[c["kind"]]
         if c["kind"] in ("badres", "badarg", "badload_arg", "badload_res") and not c["remote"]:
             want = "value"            # local calls are not pickled
+        if c["kind"] == "selfnested":
+            continue          # a call of the object to itself: one outcome is all C01 asks (C03 judges when it may execute)
         if cls == "timeout" and c["kind"] != "slow_to":
             return "timeout", "call %s timed out" % tag
         if cls != want:
@@ -177,7 +179,7 @@ def gen_specs(ck, n):
     specs = []
     for _ in range(n):
         nl, nr = rng.choice([(1, 1), (2, 1), (1, 2), (0, 2), (2, 0), (1, 0), (0, 1), (2, 2)])
-        pool = rng.choice([rpcsim.KINDS, ["ok", "ok", "exc"], rpcsim.KINDS_TIMEOUT, rpcsim.KINDS_LOCKQ, rpcsim.KINDS_BADLOAD])
+        pool = rng.choice([rpcsim.KINDS, ["ok", "ok", "exc"], rpcsim.KINDS_TIMEOUT, rpcsim.KINDS_LOCKQ, rpcsim.KINDS_BADLOAD, rpcsim.KINDS_SELF])
         mk = lambda: [rng.choice(pool) for _ in range(rng.randint(1, 3))]
         specs.append(dict(local=[mk() for _ in range(nl)], remote=[mk() for _ in range(nr)],
                           fault=rng.choice(rpcsim.FAULTS), nb=[rng.random() < 0.5 for _ in range(3)],
